@@ -487,6 +487,16 @@ type Contract struct {
 	Implements []string        // function-type roles whose contract this function must also satisfy
 	Trusted  bool // contract is assumed, the body is not verified against it (listed in the evidence)
 	StoresOnly []*StoreRule // restrictions on the stores the function's own body performs
+	AllocBounds []*AllocBound // bounds on the capacity of every make([]T, ...) in the function's own body
+}
+
+// AllocBound ("allocbound[props] label: N"): every make([]T, len, cap) executed by the function's own body
+// (or an inlined callee) has cap <= N -- no allocation proportional to an untrusted number.
+type AllocBound struct {
+	Props []string
+	Label string
+	N     string
+	Src   string
 }
 
 // StoreRule ("storesonly[props] label: fresh, Type.Field, ...") restricts the store instructions of the
@@ -769,6 +779,15 @@ func (sf *SpecFile) load(path string) error {
 			default:
 				cur.Asserts = append(cur.Asserts, cl)
 			}
+		case "allocbound":
+			if cur == nil {
+				return fail(fmt.Errorf("clause outside func"))
+			}
+			props, label, body := parseTagsLabel(rest)
+			if _, err := strconv.Atoi(strings.TrimSpace(body)); err != nil {
+				return fail(fmt.Errorf("allocbound <label>: <integer>"))
+			}
+			cur.AllocBounds = append(cur.AllocBounds, &AllocBound{Props: props, Label: label, N: strings.TrimSpace(body), Src: body})
 		case "storesonly":
 			if cur == nil {
 				return fail(fmt.Errorf("clause outside func"))
@@ -956,6 +975,13 @@ func (c *Contract) hasProp(p string) bool {
 				if q == p {
 					return true
 				}
+			}
+		}
+	}
+	for _, r := range c.AllocBounds {
+		for _, q := range r.Props {
+			if q == p {
+				return true
 			}
 		}
 	}
